@@ -40,10 +40,16 @@ fn available(confirmed: &[u64], n_extra: u64) -> Vec<u64> {
     push(F, !has(D) && !has(D2));
     push(D, !has(F));
     push(D2, !has(F));
-    push(M, has(F) && !has(U) && !has(UC));
-    push(U, has(F) && !has(M) && !has(UC));
-    push(UC, has(F) && !has(M) && !has(U));
+    push(M, has(F) && !has(U) && !has(UC) && !has(UR));
+    push(U, has(F) && !has(M) && !has(UC) && !has(UR));
+    push(UC, has(F) && !has(M) && !has(U) && !has(UR));
     push(SC, has(UC));
+    // breach: an old revoked counterparty commitment (only where the source survives it, finding F20)
+    if super::c13::SPENDABLE_FALLBACK {
+        push(UR, has(F) && !has(M) && !has(U) && !has(UC));
+        push(SR, has(UR));
+        push(JR, has(UR));
+    }
     push(S, has(U));
     push(T1, has(U) && !has(T12));
     push(T2, has(U) && !has(T12));
@@ -333,8 +339,9 @@ impl Group for C14 {
                         StepResult::Panic(msg) => {
                             dead = true;
                             co.tags.insert(format!("{}:panic", dir));
+                            let breach = *dir == "add" && ids.contains(&UR) && msg.contains("valid spendable HTLC indices");
                             co.violations.push(Violation {
-                                kind: if *dir == "remove" { "reorg-abort".into() } else { "add-abort".into() },
+                                kind: if breach { "revoked-commitment-close-abort".into() } else if *dir == "remove" { "reorg-abort".into() } else { "add-abort".into() },
                                 desc: format!("{} of a consensus-valid block panicked inside the implementation: {}", dir, msg),
                                 at: i,
                             });
@@ -353,7 +360,7 @@ impl Group for C14 {
                             if *dir == "add" {
                                 // the decoder is an input of the model; check it against what the harness built: the output
                                 // the closing transaction pays to us and its HTLC outputs must be the ones the monitor tracks
-                                for cid in [U, UC] {
+                                for cid in [U, UC, UR] {
                                     if ids.contains(&cid) {
                                         let st = wd.state_json();
                                         let co_ = &st["closing_outpoints"];
@@ -361,7 +368,7 @@ impl Group for C14 {
                                         let seen_our = co_["our_output"].get(0).and_then(|x| x.as_u64()).map(|x| x as u32);
                                         let mut seen_h: Vec<u32> = co_["htlc_outputs"].as_array().map(|a| a.iter().filter_map(|x| x.as_u64()).map(|x| x as u32).collect()).unwrap_or_default();
                                         seen_h.sort();
-                                        co.tags.insert(format!("close:{}:{}", if cid == U { "holder-commitment" } else { "counterparty-commitment" }, wd.ctype));
+                                        co.tags.insert(format!("close:{}:{}", if cid == U { "holder-commitment" } else if cid == UC { "counterparty-commitment" } else { "revoked-counterparty-commitment" }, wd.ctype));
                                         if seen_our != Some(bo) || seen_h != bh {
                                             co.violations.push(Violation {
                                                 kind: "our-output-not-recognised".into(),
@@ -447,6 +454,43 @@ fn split_watches(d: &str) -> (String, String) {
     (a.join(" "), b.join(" "))
 }
 
+/// Implementation-only group with the breach witnesses (finding F20): a block confirming an OLD, revoked
+/// counterparty commitment of the channel, its sweeps, and a reorg through them.  Runs on every tree; the main
+/// group generates such closes only where the source survives them.
+pub struct C14Breach;
+
+impl Group for C14Breach {
+    fn property(&self) -> &'static str { "C14" }
+    fn model(&self) -> Option<&'static str> { None }
+    fn rule(&self) -> &'static str {
+        "breach: old revoked counterparty commitment confirmed (static-remotekey and anchors channels, compact and streamed), \
+         swept, reorged; fixed witnesses only; non-trivial = the close was processed"
+    }
+    fn budget(&self, _tier: Tier) -> usize { 0 }
+    fn corpus(&self) -> Vec<Vec<String>> {
+        let mut v = Vec::new();
+        for ct in ["s", "a"] {
+            for del in ["c", "s"] {
+                let mut ops = vec![typed_init(ct)];
+                ops.push(line("add", "c", &[F]));
+                ops.push(line("add", del, &[UR]));
+                ops.push(line("add", "c", &[SR, JR]));
+                ops.push(line("remove", "c", &[SR, JR]));
+                ops.push(line("remove", "c", &[UR]));
+                ops.push(line("add", "c", &[UR, SR]));
+                v.push(ops);
+            }
+        }
+        v
+    }
+    fn gen_case(&self, _rng: &mut Rng, _tier: Tier) -> Vec<String> { vec![] }
+    fn exec_case(&self, ops: &[String]) -> CaseOut {
+        let mut co = C14.exec_case(ops);
+        co.nontrivial = co.tags.iter().any(|t| t.starts_with("close:revoked"));
+        co
+    }
+}
+
 pub fn groups() -> Vec<Box<dyn Group>> {
-    vec![Box::new(C14)]
+    vec![Box::new(C14), Box::new(C14Breach)]
 }
